@@ -25,6 +25,7 @@ pub fn meta(clients: &[&str], groups: &[&str], sql: &[&str], cfg: &MdkConfig) ->
     let dev: Vec<String> = std::env::var("VERIF_DEV").unwrap_or_default().split(',').filter(|x| !x.is_empty()).map(|x| x.to_string()).collect();
     json!({"op":"Meta","clients":clients,"groups":groups,"sql":sql,
            "retention":cfg.epoch_snapshot_retention,"lookback":5,"maxpast":cfg.max_past_epochs,
+           "oot":cfg.out_of_order_tolerance,"mfd":cfg.maximum_forward_distance,
            "dev":dev,
            "views":{"core":["st","mls","chain","members","pend","props","mdata","rec","res","out","notif"]}})
 }
@@ -103,6 +104,8 @@ fn main() {
             let mut mdk = MdkConfig::default();
             mdk.epoch_snapshot_retention = get("retention", "5").parse().unwrap();
             mdk.max_past_epochs = get("maxpast", "5").parse().unwrap();
+            mdk.out_of_order_tolerance = get("oot", "100").parse().unwrap();
+            mdk.maximum_forward_distance = get("mfd", "1000").parse().unwrap();
             let cfg = drivers::RandCfg {
                 seed: get("seed", "1").parse().unwrap(),
                 histories: get("n", "5").parse().unwrap(),
@@ -112,6 +115,7 @@ fn main() {
                 mdk,
                 profile: get("profile", "core"),
                 restarts: get("restarts", "0") == "1",
+                ttl: get("ttl", "0") == "1",
                 observers: get("observers", "0") == "1",
                 replay_welcomes: get("wreplay", "0") == "1",
                 junk: get("junk", "0") == "1",
